@@ -1,7 +1,7 @@
 use super::{Event, Id, Kind, Pubkey, Tags, Time};
 use crate::error::{Error, InnerError};
 use crate::json::json_parse::*;
-use crate::json::json_unescape;
+use crate::json::{json_escape, json_unescape};
 use crate::json::put;
 use std::fmt;
 use std::ops::{Deref, DerefMut};
@@ -418,21 +418,24 @@ impl Filter {
             // Filter 'tags' are not an array of arrays, they are just a convenient
             // way to store similar data. They also elide the '#'. So we have to
             // iterate here, we cannot use tags.as_json()
+            let mut escbuffer: Vec<u8> = Vec::with_capacity(256);
             for tag in tags.iter() {
                 if !first {
                     output.push(b',');
                 }
                 for (i, bytes) in tag.enumerate() {
+                    escbuffer.clear();
+                    escbuffer = json_escape(bytes, escbuffer)?;
                     if i == 0 {
                         output.extend(b"\"#");
-                        output.extend(bytes);
+                        output.extend(&escbuffer);
                         output.extend(b"\":[");
                     } else {
                         if i > 1 {
                             output.push(b',');
                         }
                         output.push(b'"');
-                        output.extend(bytes);
+                        output.extend(&escbuffer);
                         output.push(b'"');
                     }
                 }
